@@ -3,7 +3,9 @@
    Model/Playlist*.v, the proofs Proofs/Playlist*.v. *)
 From Coq Require Import List ZArith Bool String.
 From GoHls Require Import Model.PlaylistBase Model.PlaylistIdeal Model.Playlist Model.PlaylistSpec
-  Proofs.PlaylistTotal Proofs.PlaylistStruct Proofs.PlaylistAttrs Proofs.PlaylistTags Proofs.PlaylistGrammar.
+  Model.PlaylistStrict Model.PlaylistStrictSpec
+  Proofs.PlaylistTotal Proofs.PlaylistStruct Proofs.PlaylistAttrs Proofs.PlaylistTags Proofs.PlaylistGrammar
+  Proofs.PlaylistExamples Proofs.PlaylistStrictMedia Proofs.PlaylistStrictMulti Proofs.PlaylistStrictExamples.
 Local Open Scope string_scope.
 Import ListNotations.
 
@@ -41,14 +43,12 @@ Theorem c15_structural : forall (O : oracles) (b : string) (p : playlist),
 Proof. exact unmarshal_struct. Qed.
 Print Assumptions c15_structural.
 
-(* Grammar, tag level (partial): for every oracle instance within the envelope, every
-   attribute-list tag Marshal prints for a valid value is "#TAG:" ++ NAME=value[,NAME=value]*
-   ++ "\n" with a non-empty list, names free of '=' and leading blanks, quoted values free of
-   quotes, unquoted values free of commas, nothing containing CR or LF.
-   Missing for the full c15_grammar: an independent recogniser strict_ok in Gallina for the
-   line-level grammar and the lexical types; that part is checked by the independent Go
-   grammar checker of the harness on every Marshal output. *)
-Theorem c15_grammar_partial_attribute_lists : forall (O : oracles), oracle_ok O ->
+(* Grammar, tag level, against the library's own tokenizer: for every oracle instance within
+   the C14 envelope, every attribute-list tag Marshal prints for a valid value is
+   "#TAG:" ++ NAME=value[,NAME=value]* ++ "\n" with a non-empty list that the tokenizer of
+   pkg/playlist/primitives reads back unambiguously (the strict-grammar theorems below do not
+   depend on this one). *)
+Theorem c15_attribute_lists_read_back : forall (O : oracles), oracle_ok O ->
   (forall t, dur_signed (st_timeoffset t) = true -> attr_line "#EXT-X-START:" (start_marshal O t))
   /\ (forall t, dur_pos (pi_parttarget t) = true -> attr_line "#EXT-X-PART-INF:" (part_inf_marshal O t))
   /\ (forall t, wf_map t = true -> attr_line "#EXT-X-MAP:" (map_marshal t))
@@ -63,7 +63,7 @@ Theorem c15_grammar_partial_attribute_lists : forall (O : oracles), oracle_ok O 
   /\ (forall t, wf_server_control t = true ->
         attr_line "#EXT-X-SERVER-CONTROL:" (server_control_marshal O t)).
 Proof. exact tag_lines_are_attribute_lists. Qed.
-Print Assumptions c15_grammar_partial_attribute_lists.
+Print Assumptions c15_attribute_lists_read_back.
 
 (* the hypothesis of the structural theorems is satisfiable: a text that decodes *)
 Theorem c15_example_decodes :
@@ -73,3 +73,68 @@ Proof.
     ("#EXTM3U" ++ lf ++ "#EXT-X-TARGETDURATION:2" ++ lf ++ "#EXTINF:1.5,t" ++ lf ++ "s.mp4" ++ lf) = Ok _) eq_refl))).
 Qed.
 Print Assumptions c15_example_decodes.
+
+(* ---- the strict RFC 8216 / 8216bis grammar ---- *)
+(* strict_ok (Model/PlaylistStrict.v) is an independent executable recogniser of the line
+   grammar: #EXTM3U first, known tags only, each tag at most where it is allowed, values and
+   attribute values of the right lexical type, every URI line preceded by its EXTINF resp.
+   EXT-X-STREAM-INF, media and multivariant tags not mixed. It enforces the rule set of the Go
+   checker harness/internal/playlist/grammar; the two are compared on every run (Marshal
+   output, muxer-served playlists, mutated and arbitrary texts).
+
+   Hypotheses: [oracle_lex_ok O] - FormatFloat with a fixed precision prints
+   [-]digits.digits (no sign for a non-negative value), Time.Format an ISO 8601 date-time on
+   one line; [wf_*] - the documented field requirements; [strict_*] - what the grammar requires
+   of fields the Go structs type as free strings (URI lines without white space and control
+   characters, IV a hexadecimal-sequence, RESOLUTION a decimal-resolution, PART-HOLD-BACK and
+   CAN-SKIP-UNTIL unsigned), and NO byte range in EXT-X-MAP and EXT-X-PART: Marshal prints that
+   attribute unquoted (recorded finding, refuted below). *)
+Theorem c15_grammar_media : forall (O : oracles), oracle_lex_ok O -> forall p : Media,
+  wf_media p = true -> strict_media p = true -> strict_ok (media_marshal O p) = true.
+Proof. exact marshal_media_strict. Qed.
+Print Assumptions c15_grammar_media.
+
+Theorem c15_grammar_multivariant : forall (O : oracles), oracle_lex_ok O -> forall p : Multivariant,
+  wf_multivariant p = true -> strict_multivariant p = true -> strict_ok (multivariant_marshal O p) = true.
+Proof. exact marshal_multivariant_strict. Qed.
+Print Assumptions c15_grammar_multivariant.
+
+(* non-vacuity: the lexical envelope has a model ... *)
+Theorem c15_grammar_envelope_satisfiable : oracle_lex_ok lex_oracles.
+Proof. exact lex_oracles_ok. Qed.
+Print Assumptions c15_grammar_envelope_satisfiable.
+
+(* ... and rich values (keys changing, parts, date-time with Go's layout, server control, skip,
+   preload hint; renditions of three types) satisfy the hypotheses and the conclusion *)
+Theorem c15_grammar_example_media :
+  wf_media ex_media_strict = true /\ strict_media ex_media_strict = true
+  /\ strict_ok (media_marshal zg_oracles ex_media_strict) = true.
+Proof. exact ex_media_strict_ok. Qed.
+Print Assumptions c15_grammar_example_media.
+
+Theorem c15_grammar_example_multivariant :
+  wf_multivariant ex_multivariant = true /\ strict_multivariant ex_multivariant = true
+  /\ strict_ok (multivariant_marshal zg_oracles ex_multivariant) = true.
+Proof. exact ex_multivariant_strict_ok. Qed.
+Print Assumptions c15_grammar_example_multivariant.
+
+(* recorded findings: without the side condition the statement is false - BYTERANGE of
+   EXT-X-MAP and of EXT-X-PART is printed unquoted (known_findings.json:
+   C15:grammar:attr-type-map-byterange-unquoted..., ...part-byterange-unquoted...) *)
+Theorem c15_grammar_refuted_map_byterange :
+  exists p, wf_media p = true /\ strict_ok (media_marshal zg_oracles p) = false
+            /\ media_marshal zg_oracles p =
+               "#EXTM3U" ++ lf ++ "#EXT-X-VERSION:3" ++ lf ++ "#EXT-X-TARGETDURATION:2" ++ lf
+               ++ "#EXT-X-MEDIA-SEQUENCE:0" ++ lf ++ "#EXT-X-MAP:URI=""k.mp4"",BYTERANGE=1" ++ lf
+               ++ "#EXTINF:1.00000," ++ lf ++ "s.mp4" ++ lf.
+Proof. exact grammar_refuted_map_byterange. Qed.
+Print Assumptions c15_grammar_refuted_map_byterange.
+
+Theorem c15_grammar_refuted_part_byterange :
+  exists p, wf_media p = true /\ strict_ok (media_marshal zg_oracles p) = false
+            /\ media_marshal zg_oracles p =
+               "#EXTM3U" ++ lf ++ "#EXT-X-VERSION:3" ++ lf ++ "#EXT-X-TARGETDURATION:2" ++ lf
+               ++ "#EXT-X-MEDIA-SEQUENCE:0" ++ lf ++ "#EXTINF:1.00000," ++ lf ++ "s.mp4" ++ lf
+               ++ "#EXT-X-PART:DURATION=1.00000,URI=""p.mp4"",BYTERANGE=7@0" ++ lf.
+Proof. exact grammar_refuted_part_byterange. Qed.
+Print Assumptions c15_grammar_refuted_part_byterange.
